@@ -75,15 +75,20 @@ def trace_stats(work):
 
 def run(res):
     common.prove(res, drivers=["jc"])
-    if jc_arith is not None:
-        jc_arith.campaign(res)
-    else:
-        res.notes["jc_arith"] = "TODO: props/jc_arith.py not present; packed-word arithmetic not tied to the code in this run"
     n = 300 if res.tier == "quick" else 3000
     out = sched_common.campaign(res, "C07", "jc_prog", variants(res.seed), n, ["jc"], accept_args=["trace"],
                                 workers_note=", W in 1..3 workers; two-level dependency DAG on join counters with N in {0,1,2,3,7,8} decrementers, 1..4 waiters per counter arriving before / between / after the decrements, plus a wait issued after everything")
     if out:
         res.notes["jc_trace_distribution"] = trace_stats(out["work"])
+    # arithmetic of the packed word (calc_bits, mask, field independence): sequential unit calls of the
+    # real functions.  Skipped once a failing schedule has been found (a broken protocol can make the
+    # unit calls spin for ever, which that helper can only report as a harness error).
+    if res.violations:
+        res.notes["jc_arith"] = "skipped: a failing schedule was found first"
+    elif jc_arith is not None:
+        jc_arith.campaign(res)
+    else:
+        res.notes["jc_arith"] = "TODO: props/jc_arith.py not present; packed-word arithmetic not tied to the code in this run"
     if res.breaks and not res.violations:
         sched_common.search_more(res, "C07", "jc_prog", variants(res.seed + 1), 300)
     res.assumptions += [
